@@ -285,8 +285,12 @@ func (ps *PubSub) subscribe(conn redcon.Conn, pattern bool, channel string) {
 		channel: channel,
 		sconn:   sconn,
 	}
-	ps.chans.Set(entry)
-	sconn.entries[entry] = true
+	if ps.chans.Get(entry) == nil {
+		// the connection may repeat a subscription it already holds: keep the
+		// existing entry, the reply below still carries the current count.
+		ps.chans.Set(entry)
+		sconn.entries[entry] = true
+	}
 
 	// send a message to the client
 	sconn.dconn.WriteArray(3)
